@@ -45,6 +45,31 @@ CLAIMED = {
              "pycryptodome keys from corpus/C06/*.pem plus one seed-derived key, against the compiled model and an independent struct.pack oracle.",
         design="§4 C06, §1.2",
     ),
+    "C15": dict(
+        text="Lean theorems over the executable model of iter_find_needle and iter_artifactkit_payloads: for every file content, position, file "
+             "kind, non-empty needle, buffer size B>=1 and start, the no-limit scan returns exactly the occurrences >= start, ascending "
+             "(needle_exact, via the carry-buffer loop invariant; buffer-size independence, no duplicates, non-negativity as corollaries); under a "
+             "limit the result is a sublist of that answer with soundness (needle_limit_sound) and completeness for occurrences ending before "
+             "the limit (needle_limit_complete). The ArtifactKit scanner reports exactly artifactHits with payload = xor(slice, key) "
+             "(artifact_exact, artifact_offsets_iff, artifact_payload). Loops are well-founded recursions (termination proved, no fuel).",
+        note="CPython bytes.find, slicing and file-object semantics are modelled (bytesFind?/PyFile) and exercised by dedicated streams, not verified; "
+             "u32/xor reuse the C20 models. Correspondence: exhaustive over alphabet {00,01,ff} (haystacks <=7 x needles <=3 x B 1..5 x start x limit), "
+             "planted boundary-straddling occurrences for B in {1,3,7,64,8192}, BytesIO and real files. Under a limit the exact cut depends on B and is "
+             "compared as correspondence-only. Empty needle and B=0 are outside the property.",
+        design="§4 C15",
+    ),
+    "C16": dict(
+        text="Lean theorems over an executable model of parse_raw_http: the body is everything after the first CRLFCRLF (body_preserved); a start "
+             "line that is not three tokens gives exactly ValueError and no other exception is possible for any input (malformed_rejected, "
+             "only_valueError); every well-formed response (any HTTP/ version token, any status of at most 4300 digits, any single-token reason) and "
+             "every well-formed request (any admissible ASCII path incl. ';', ':', '@', '%', arbitrary parameter bytes percent-encoded on the wire, "
+             "header maps, any body) round-trips through render and parse (response_roundtrip, request_roundtrip); percent-decoding inverts "
+             "percent-encoding (unquote_quote); headers and parameters have dict semantics.",
+        note="CPython 3.12.1 built-ins (bytes.partition/split/rstrip/upper, UTF-8 and ASCII-ignore decoding, int(str) incl. Unicode digits from "
+             "generated tables and the 4300-digit limit, urllib.parse.urlsplit on bytes incl. netloc/IPv6 checks, parse_qsl, dict) are modelled and "
+             "checked by exhaustive (all URI targets of length <=4 over a 15-letter alphabet) and random correspondence streams, not verified.",
+        design="§4 C16",
+    ),
 }
 
 REASON_PENDING = "not claimed yet: model/theorems/correspondence for this property are not built in this revision (see DESIGN.md §7 build order)"
